@@ -241,6 +241,11 @@ class Names(object):
 CONTENTS = [('ascii', b'FOO-MIB DEFINITIONS ::= BEGIN END\n'), ('utf8', 'caf\u00e9 \u4e2d\u6587 -- text\n'.encode('utf-8')),
             ('invalid-utf8', b'abc\xff\xfe\x80def\n'), ('crlf', b'line1\r\nline2\r\n'), ('empty', b''),
             ('latin1', 'caf\xe9'.encode('latin-1'))]
+# long texts of 2-, 3- and 4-octet characters after 0..3 ASCII characters: whatever block size a reader uses (a power of two up to
+# 128 KiB), a character straddles the block boundary in one of them
+for _w, _ch in ((2, '\u00e9'), (3, '\u4e2d'), (4, '\U0001F600')):
+    for _k in range(_w):
+        CONTENTS.append(('long-%d-octet-characters-after-%d' % (_w, _k), ('a' * _k + _ch * (150000 // _w + 7) + '\nEND\n').encode('utf-8')))
 
 
 class Decoys(object):
@@ -353,7 +358,7 @@ class Contents(object):
                 got = ask(rd, 'FOO-MIB')
                 want = data.decode('utf-8', 'ignore')
                 if got[0] != 'found' or got[1] != want or got[2] != mt:
-                    vs.append(('C14|contents|%s|%s|not-the-decoded-content' % (case['kind'], label), 'got %r want %r' % (got, want)))
+                    vs.append(('C14|contents|%s|%s|not-the-decoded-content' % (case['kind'], label), 'got %s want %s' % (repr(got)[:300], repr(want)[:200])))
                 return got[0], vs, 1
             if g == 'toolarge':
                 limit = 4096
